@@ -97,3 +97,99 @@ Proof.
     + left; reflexivity.
     + exists q. split; [right; exact Hq | rewrite Eq, qsum_cons; ring].
 Qed.
+
+(* ---------- positions as prefix sums; views with ascending indices ---------- *)
+Definition qequiv := Forall2 Qeq.
+
+Lemma qequiv_refl l : qequiv l l.
+Proof. induction l; constructor; [reflexivity | assumption]. Qed.
+
+Definition pos_at (p : Q) (sp : list Q) (k : nat) : Q := p + qsum (firstn k sp).
+
+Lemma qsum_app a b : qsum (a ++ b) == qsum a + qsum b.
+Proof.
+  induction a as [|x a IH]; simpl.
+  - rewrite qsum_nil. ring.
+  - rewrite !qsum_cons, IH. ring.
+Qed.
+
+Lemma run_from_proper sp : forall p p', p == p' -> qequiv (run_from p sp) (run_from p' sp).
+Proof.
+  induction sp as [|s r IH]; intros p p' E; simpl.
+  - constructor; [exact E | constructor].
+  - constructor; [exact E | apply IH; rewrite E; reflexivity].
+Qed.
+
+Lemma qequiv_trans a b c : qequiv a b -> qequiv b c -> qequiv a c.
+Proof.
+  intros H; revert c; induction H as [|x y a b E H IH]; intros c Hc; inversion Hc; subst; constructor.
+  - rewrite E; assumption.
+  - apply IH; assumption.
+Qed.
+
+Lemma run_from_pos_at sp : forall p,
+  qequiv (run_from p sp) (map (pos_at p sp) (seq 0 (S (length sp)))).
+Proof.
+  induction sp as [|s r IH]; intros p.
+  - simpl. constructor; [unfold pos_at; simpl; rewrite qsum_nil; ring | constructor].
+  - cbn [run_from length]. rewrite <- cons_seq. cbn [map].
+    constructor; [unfold pos_at; simpl; rewrite qsum_nil; ring|].
+    rewrite <- seq_shift, map_map.
+    eapply qequiv_trans; [apply IH|].
+    clear IH. induction (seq 0 (S (length r))) as [|k l IHl]; simpl; constructor; [|exact IHl].
+    unfold pos_at. simpl. rewrite qsum_cons. ring.
+Qed.
+
+Lemma firstn_split a : forall b (sp : list Q), (a <= b)%nat -> firstn b sp = firstn a sp ++ firstn (b - a) (skipn a sp).
+Proof.
+  induction a as [|a IH]; intros b sp H; simpl.
+  - rewrite Nat.sub_0_r. reflexivity.
+  - destruct b as [|b]; [lia|]. destruct sp as [|x sp]; simpl; [rewrite firstn_nil; reflexivity|].
+    f_equal. apply IH. lia.
+Qed.
+
+Lemma slice_sum p sp a b : (a <= b)%nat -> pos_at p sp a + qsum (slice sp a b) == pos_at p sp b.
+Proof.
+  intros H. unfold pos_at, slice. rewrite (firstn_split a b sp H), qsum_app. ring.
+Qed.
+
+Fixpoint ascending (l : list nat) : Prop :=
+  match l with
+  | a :: ((b :: _) as r) => (a <= b)%nat /\ ascending r
+  | _ => True
+  end.
+
+(* a view with ascending indices shows exactly the selected positions of its parent *)
+Lemma sub_positions p sp rest : forall i0,
+  ascending (i0 :: rest) ->
+  qequiv (run_from (pos_at p sp i0) (sub_spacing sp (i0 :: rest))) (map (pos_at p sp) (i0 :: rest)).
+Proof.
+  induction rest as [|i1 r IH]; intros i0 H.
+  - simpl. constructor; [reflexivity | constructor].
+  - destruct H as [H01 H]. cbn [sub_spacing run_from map].
+    constructor; [reflexivity|].
+    eapply qequiv_trans; [apply run_from_proper, (slice_sum p sp i0 i1 H01) | apply IH; exact H].
+Qed.
+
+Theorem view_positions_x g xi yi i0 rest :
+  xi = i0 :: rest -> ascending xi -> forall x0, xin g = Some x0 ->
+  qequiv (xpos (geom (GSub g xi yi))) (map (pos_at x0 (xsp g)) xi).
+Proof.
+  intros -> Ha x0 X. unfold xpos, pos_of. simpl. rewrite X. simpl.
+  apply (sub_positions x0 (xsp g) rest i0 Ha).
+Qed.
+
+Theorem view_positions_y g xi yi j0 rest :
+  yi = j0 :: rest -> ascending yi -> forall y0, yin g = Some y0 ->
+  qequiv (ypos (geom (GSub g xi yi))) (map (pos_at y0 (ysp g)) yi).
+Proof.
+  intros -> Ha y0 Y. unfold ypos, pos_of. simpl. rewrite Y. simpl.
+  apply (sub_positions y0 (ysp g) rest j0 Ha).
+Qed.
+
+Lemma grid_positions_x g x0 : xin g = Some x0 ->
+  qequiv (xpos g) (map (pos_at x0 (xsp g)) (seq 0 (S (length (xsp g))))).
+Proof. intros X. unfold xpos, pos_of. rewrite X. apply run_from_pos_at. Qed.
+Lemma grid_positions_y g y0 : yin g = Some y0 ->
+  qequiv (ypos g) (map (pos_at y0 (ysp g)) (seq 0 (S (length (ysp g))))).
+Proof. intros Y. unfold ypos, pos_of. rewrite Y. apply run_from_pos_at. Qed.
